@@ -19,7 +19,7 @@ Open Scope Z_scope.
 (* The hand-written plumbing (Num/UnitsFloat.v, Num/Switch.v) was written from the texts the
    small unit-handling methods of machine.py, light_set.py, lifx_lan_light.py, lifx_lan_api.py
    and color_matrix.py have now. *)
-Theorem C07_shapes_current : small_shapes_ok = true.
+Theorem C07_shapes_current : c07_shapes_ok = true.
 Proof. reflexivity. Qed.
 Print Assumptions C07_shapes_current.
 
